@@ -895,15 +895,16 @@ func (w *World) doUsePar(p int, op Op) Obs {
 	q.Set("client_id", op.Client)
 	uri := w.tok("par", op.Par)
 	switch op.Kind {
-	case "foreign_prefix":
+	case "foreign_prefix", "foreign_prefix_full":
 		uri = "urn:example:other:" + strings.TrimPrefix(uri, w.Config.GetPushedAuthorizeRequestURIPrefix(ctx))
 	case "unknown":
 		uri = w.Config.GetPushedAuthorizeRequestURIPrefix(ctx) + "bm90LWEtcHVzaGVkLXJlcXVlc3QtMDEyMzQ1Njc4OQ"
 	}
 	if op.Kind != "absent" {
 		q.Set("request_uri", uri)
-	} else {
-		// a complete, valid plain authorization request without request_uri
+	}
+	if op.Kind == "absent" || op.Kind == "foreign_prefix_full" {
+		// a complete, valid plain authorization request (without request_uri, or next to one that is not a pushed one)
 		for k, v := range w.authorizeQuery(Op{Client: op.Client, RType: "code", Scopes: []string{"a"}, Redir: "sent"}) {
 			q[k] = v
 		}
